@@ -1,9 +1,153 @@
-import GS.Model.RespLifecycle
-/-! C05 property theorems (being filled in). -/
+import GSProofs.Lemmas.RespLifeReach
+/-!
+# C05 — Every incoming request is eventually fully retired by the responder
+
+Model: `GS.RespLife` (lean/GS/Model/RespLifecycle.lean), an actor model of the responder at /repo HEAD
+(with the fixes 369d047 and 50602fc).  `ReachableFresh` = states reachable when the environment
+never re-uses a request id; `Reachable` = no restriction.
+
+Property sentence → theorems
+
+* "the connection protection it took is released" / Protect–Unprotect alternate per (peer, tag):
+  `protect_balanced_partial` (fresh ids), `protect_balanced_counterexample` (a re-used live id: two
+  Protects in a row — known finding `dup-live-id`).
+* "afterwards the responder holds no state for it … and the peer's reported request states no longer
+  list it": `retired_means_released` — in every reachable state a request that is not in the table
+  (hence not in `PeerState`, which is computed from the table) is not protected.
+* "exactly one outcome": FALSE at full strength on the faithful model, `one_outcome_counterexample`
+  (cancelled AND reported to network-error listeners — known finding
+  `network-error-and-other-outcome`).  The full statement is kept below as a comment; what is proved
+  towards it is listed in STATUS.md.
+* the two defects repaired while building this check are pinned by `fix_369d047_regression` and
+  `fix_50602fc_regression`: the replay scripts now end with an empty table in the model.
+
+-- FULL STATEMENT (not provable, see counterexample):
+--   theorem one_outcome : ReachableFresh limit s → ∀ id ∈ s.seenIds,
+--     outcomes s id ∈ {[done c], [canc], nerr⁺}     -- exactly one class, done/canc at most once
+-- FULL STATEMENT of the liveness clause (stated, proved only in the weaker forms of STATUS.md):
+--   theorem retired : WeaklyFair σ → PausedEventuallyResumed σ →
+--     LeadsTo σ (fun s => id ∈ s.seenIds) (fun s => lookup s id = none ∧ (p, id) ∉ s.prot)
+-/
 namespace GS.C05
 open GS.RespLife
 
-/-- placeholder while the invariants are being proved: the initial state has an empty table -/
-theorem init_table (limit : Nat) : (init limit).table = [] := rfl
+/-- Protect (= true) / Unprotect (= false) calls of the connection manager for `(p, tag id)`. -/
+def protectLog (s : State) (p : Peer) (id : Id) : List Bool := klog s.events (p, id)
+
+/-- calls alternate, starting with Protect -/
+def Alternating (l : List Bool) : Prop := l = [] ∨ l = [true] ∨ l = [true, false]
+
+theorem klog_filter (l : List Event) (k : Peer × Id) : klog (l.filter isProtEv) k = klog l k := by
+  unfold klog
+  rw [List.filter_filter]
+  congr 1
+  apply List.filter_congr
+  intro e _
+  cases e <;> simp [evKey, isProtEv]
+
+/-- **C05.protect_balanced** (partial: request ids are never re-used).  In every reachable state the
+    Protect/Unprotect calls for each (peer, tag) alternate starting with Protect — with fresh ids the
+    log is `[]`, `[+]` or `[+,-]` — and the tag is protected exactly when the last call was Protect. -/
+theorem protect_balanced_partial {limit : Nat} {s : State} (h : ReachableFresh limit s) (p : Peer) (id : Id) :
+    Alternating (protectLog s p id) ∧ ((p, id) ∈ s.prot ↔ protectLog s p id = [true]) := by
+  have hinv := (pinv_reachable h).shape (p, id)
+  have e : klog (pi s).plog (p, id) = protectLog s p id := klog_filter s.events (p, id)
+  rw [e] at hinv
+  exact hinv
+
+/-- the part of "fully retired" that is a state invariant: whatever is not in the table (and whose
+    `newRequest` step is not parked on a reservation) holds no connection protection; `PeerState`
+    lists exactly the table entries of the peer (`peerState` in server.go), so such a request is not
+    reported either. -/
+theorem retired_means_released {limit : Nat} {s : State} (h : ReachableFresh limit s) (p : Peer) (id : Id)
+    (hgone : ∀ r ∈ s.table, ¬ (r.peer = p ∧ r.id = id)) (hpark : parkNew s.park ≠ some (p, id)) :
+    (p, id) ∉ s.prot := by
+  intro hin
+  rcases ((pinv_reachable h).protIff (p, id)).1 hin with hk | hk
+  · obtain ⟨r, hr, hre⟩ := List.mem_map.1 hk
+    exact hgone r hr ⟨congrArg Prod.fst hre, congrArg Prod.snd hre⟩
+  · exact hpark hk
+
+/-- ids in the table are unique (fresh ids) -/
+theorem table_ids_nodup {limit : Nat} {s : State} (h : ReachableFresh limit s) :
+    (s.table.map (·.id)).Nodup := by
+  have := (pinv_reachable h).nodupIds
+  simpa [pi, keys, List.map_map, Function.comp_def] using this
+
+-- ------------------------------------------------------------------ concrete runs
+def cfgA (n : Nat) : ReqCfg := { pri := 1, hook := ⟨.accept, false⟩, n, miss := none, bh := [] }
+
+/-- a live id re-used by the same peer: `newRequest` runs twice for id 0 -/
+def dupScript : List Action := [.recv 0 (.new 0 (cfgA 2)), .mgr, .recv 0 (.new 0 (cfgA 2)), .mgr]
+
+/-- **C05.protect_balanced_counterexample**: without the fresh-id hypothesis the calls do not
+    alternate — two Protects in a row for the same (peer, tag).  (Known finding `dup-live-id`;
+    replayed on the real code by corpus/C05 `known-dup-live-id-*`.) -/
+theorem protect_balanced_counterexample :
+    ∃ s, Reachable 0 s ∧ protectLog s 0 0 = [true, true] :=
+  ⟨run (init 0) dupScript, reachable_run Reachable.init _, by decide⟩
+
+/-- requestor cancels a queued request whose request-hook data is still in flight; the message then
+    fails: the request is reported to the cancelled listeners AND to the network-error listeners. -/
+def cancelNerrScript : List Action :=
+  [.primer 0, .extract 0,                                   -- queue goroutine parked in SendMsg
+   .recv 0 (.new 0 { (cfgA 1) with hook := ⟨.accept, true⟩ }), .mgr,   -- hook data queued
+   .recv 0 (.cancel 0), .mgr,                                -- cancelled while Queued: canc(0)
+   .net 0 true, .extract 0,                                  -- hook data now in flight
+   .net 0 false, .pub 0, .mgr, .pub 0]                       -- send fails: nerr(0)
+
+/-- **C05.one_outcome_counterexample**: a reachable state (fresh ids) in which request 0 has been
+    reported both as cancelled and as failed on the network.  Replayed on the real code by
+    corpus/C05 `known-cancel-queued-then-network-error-of-hook-data` (known finding
+    `network-error-and-other-outcome`). -/
+theorem one_outcome_counterexample :
+    ∃ s, ReachableFresh 0 s ∧ Event.canc 0 ∈ s.events ∧ Event.nerr 0 ∈ s.events ∧ s.table = [] :=
+  ⟨run (init 0) cancelNerrScript, reachableFresh_run ReachableFresh.init _ (by decide),
+   by decide, by decide, by decide⟩
+
+/-- the replay of the defect repaired by /repo 369d047 (send failure reported after the executor's
+    last signal check): 2-block request, worker parked in the hook of its last block while the message
+    with the first block fails -/
+def fix369Script : List Action :=
+  [.primer 0, .extract 0,
+   .recv 0 (.new 0 { (cfgA 2) with bh := [.ok, .park] }), .mgr,
+   .pop 0 0, .mgr, .wstep 0 0,          -- StartTask, top of the loop
+   .wstep 0 0,                          -- block 0 queued
+   .net 0 true, .extract 0,             -- block 0 in flight
+   .wstep 0 0,                          -- block 1: signal check passed, parked in the hook
+   .net 0 false, .pub 0, .mgr, .pub 0,  -- send fails: CloseWithNetworkError while Running
+   .wstep 0 0, .mgr]                    -- executor finishes: FinishTask(nil)
+
+/-- **regression for fix 369d047**: the response is retired (before the fix the model, like the
+    code, ended in CompletingSend forever with the connection protected). -/
+theorem fix_369d047_regression :
+    let s := run (init 0) fix369Script
+    s.table = [] ∧ s.prot = [] ∧ Event.nerr 0 ∈ s.events := by decide
+
+/-- the replay of the defect repaired by /repo 50602fc: UpdateResponse while the terminal status is
+    queued but not yet sent -/
+def fix506Script : List Action :=
+  [.primer 0, .extract 0,
+   .recv 0 (.new 0 (cfgA 1)), .mgr,
+   .pop 0 0, .mgr, .wstep 0 0, .wstep 0 0, .mgr,   -- the whole response is queued, state CompletingSend
+   .api (.update 0 true), .mgr,                     -- PartialResponse + extension into the same message
+   .net 0 true, .extract 0, .net 0 true, .pub 0, .pub 0, .mgr, .pub 0]
+
+/-- **regression for fix 50602fc**: the terminal status survives, the request completes once and is
+    retired. -/
+theorem fix_50602fc_regression :
+    let s := run (init 0) fix506Script
+    s.table = [] ∧ s.prot = [] ∧ Event.done 0 20 ∈ s.events := by decide
+
+-- ------------------------------------------------------------------ non-vacuity
+/-- the hypotheses of `protect_balanced_partial` are met by a non-trivial state: a fresh run that
+    registers and retires a request has log `[+,-]` -/
+example : ∃ s, ReachableFresh 0 s ∧ protectLog s 0 0 = [true, false] := by
+  refine ⟨run (init 0) [.recv 0 (.new 0 (cfgA 1)), .mgr, .recv 0 (.cancel 0), .mgr], ?_, by decide⟩
+  refine ReachableFresh.step (a := .mgr) (ReachableFresh.step (a := .recv 0 (.cancel 0))
+    (ReachableFresh.step (a := .mgr) (ReachableFresh.step (a := .recv 0 (.new 0 (cfgA 1)))
+      ReachableFresh.init ?_ rfl) trivial rfl) trivial rfl) trivial rfl
+  show 0 ∉ (init 0).seenIds
+  simp [init]
 
 end GS.C05
